@@ -38,9 +38,11 @@ Wide(s, le) == IF s = <<>> THEN <<>>
                ELSE LET RECURSIVE W(_)
                         W(t) == IF t = <<>> THEN <<>> ELSE (IF le THEN <<Head(t), 0>> ELSE <<0, Head(t)>>) \o W(Tail(t))
                     IN W(s)
-Prefixes == {<<>>, <<239, 187, 191>>, <<255, 254>>, <<254, 255>>, <<239>>, <<239, 187>>, <<255>>, <<254>>}
-HeaderFor(pre) == IF pre = <<255, 254>> THEN Wide(HeaderText, TRUE)
-                  ELSE IF pre = <<254, 255>> THEN Wide(HeaderText, FALSE) ELSE HeaderText
+\* (the last four: an empty first line right after the BOM, so that a line break is the first content byte)
+Prefixes == {<<>>, <<239, 187, 191>>, <<255, 254>>, <<254, 255>>, <<239>>, <<239, 187>>, <<255>>, <<254>>,
+             <<255, 254, 10, 0>>, <<254, 255, 0, 10>>, <<239, 187, 191, 10>>, <<10>>}
+HeaderFor(pre) == IF Len(pre) >= 2 /\ SubSeq(pre, 1, 2) = <<255, 254>> THEN Wide(HeaderText, TRUE)
+                  ELSE IF Len(pre) >= 2 /\ SubSeq(pre, 1, 2) = <<254, 255>> THEN Wide(HeaderText, FALSE) ELSE HeaderText
 
 RECURSIVE ByteSeqs(_, _)
 ByteSeqs(S, n) == IF n = 0 THEN {<<>>} ELSE LET Q == ByteSeqs(S, n - 1) IN Q \cup {Append(q, b) : q \in Q, b \in S}
